@@ -134,6 +134,8 @@ def run(ctx):
         ('m.y != t.b', binop('!=', ident('m.y', model), ident('t.b', tab)), {}, False),
         ('t.a = u.c', binop('=', ident('t.a', tab), ident('u.c', tab2)), {}, False),
         ('m.x = 1', binop('=', ident('m.x', model), const(1)), {}, False),
+        ('NOT (m.x = t.a)', Obj('UnaryOperation', op='not', args=[binop('=', ident('m.x', model), ident('t.a', tab))], alias=None), {}, False),
+        ('m.x = t.a OR m.y = t.b', binop('or', binop('=', ident('m.x', model), ident('t.a', tab)), binop('=', ident('m.y', model), ident('t.b', tab))), {}, False),
         ('t.a = m.x AND m.y = t.b', binop('and', binop('=', ident('t.a', tab), ident('m.x', model)), binop('=', ident('m.y', model), ident('t.b', tab))),
          {'x': 't.a', 'y': 't.b'}, True),
     ]
@@ -152,6 +154,8 @@ def run(ctx):
                f'ON {label}: the model\'s column mapping is {got_txt}, expected {want}: only an equality between a model column and a column of another '
                f'table maps one to the other', file=PJ, line=cm.lineno, witness='select * from int1.t join proj.model m on t.a < m.x')
         leaves = [on] if str(on.op) != 'and' else on.args
+        if str(on.op) in ('not', 'or'):
+            leaves = [x for a_ in on.args for x in ([a_] if a_.kind == 'BinaryOperation' and str(a_.op) == '=' else [])]
         for lf in leaves:
             neutral = all(a.kind == 'Constant' and a.value == 0 for a in lf.args)
             ctx.ob('C14.columns-map', f'{label}:neutralised', neutral == consumed,
